@@ -478,6 +478,42 @@ fn tetris_case(src: &mut Src, ctx: &mut Ctx) -> Result<(), String> {
     let lib = tetris_lib(&g, &listing, views);
     let res = crate::props::compat::tetris_dep_order(&lib).and_then(|o| o.iter().map(|p| index_of(&p.read().unwrap().name)).collect());
     judge(&g, &listing, res, "tetris Library::dep_order")?;
+    // a second question to the same library after its instance graph has changed (one more instance,
+    // same cells): the answer must be about the library as it is now
+    {
+        // every cell reachable from the listing, by name (each cell visited once)
+            let mut by_name: std::collections::BTreeMap<String, Ptr<tet::cell::Cell>> = std::collections::BTreeMap::new();
+        let mut stack: Vec<Ptr<tet::cell::Cell>> = lib.cells.iter().cloned().collect();
+        while let Some(p) = stack.pop() {
+            let (name, kids): (String, Vec<Ptr<tet::cell::Cell>>) = match p.read() {
+                Ok(c) => (c.name.clone(), c.layout.as_ref().map(|l| l.instances.iter().filter_map(|ip| ip.read().ok().map(|i| i.cell.clone())).collect()).unwrap_or_default()),
+                Err(_) => continue,
+            };
+            if by_name.insert(name, p.clone()).is_none() {
+                stack.extend(kids);
+            }
+        }
+        let with_layout: Vec<usize> = (0..g.len()).filter(|i| by_name.get(&name_of(*i)).map(|p| p.read().map(|c| c.layout.is_some()).unwrap_or(false)).unwrap_or(false)).collect();
+        if let Some(&a) = with_layout.first() {
+            let b = (a + 1 + (views as usize % g.len().max(1))) % g.len();
+            let find = |i: usize| -> Option<Ptr<tet::cell::Cell>> { by_name.get(&name_of(i)).cloned() };
+            if b != a {
+                if let (Some(pa), Some(pb)) = (find(a), find(b)) {
+                    if let Ok(mut ca) = pa.write() {
+                        if let Some(l) = ca.layout.as_mut() {
+                            l.instances.add(tet::instance::Instance { inst_name: "late".into(), cell: pb.clone(), loc: (9isize, 9isize).into(), reflect_horiz: false, reflect_vert: false });
+                        }
+                    }
+                    let mut g2 = g.clone();
+                    if !g2[a].contains(&b) {
+                        g2[a].push(b);
+                    }
+                    let res2 = crate::props::compat::tetris_dep_order(&lib).and_then(|o| o.iter().map(|p| index_of(&p.read().unwrap().name)).collect());
+                    judge(&g2, &listing, res2, "tetris Library::dep_order, asked again after one more instance was added")?;
+                }
+            }
+        }
+    }
     // the placer walks the cells in that same order: on a cyclic cell graph it must report the error too
     // (all instances here have absolute locations, so nothing else can go wrong)
     let reach = reachable(&g, &listing);
